@@ -4,6 +4,7 @@ usage: tools/try_patch.py PATCH [PROP ...]   (nothing in /repo or /verif is modi
 import json, os, shutil, subprocess, sys, tempfile
 sys.path.insert(0, os.path.dirname(os.path.dirname(os.path.abspath(__file__))))
 from s3tlint import engine, rules
+from s3tlint.ir import Program, AnalysisError
 from s3tlint.props import PROPS
 
 def main():
@@ -19,8 +20,13 @@ def main():
             return 3
         fired = {}
         errs = {}
+        try:
+            prog = Program.load(tmp)
+        except AnalysisError as e:
+            print('ANALYSIS-ERROR', e)
+            return 2
         for p in props:
-            code, ctx, viol = engine.run_property(p, 'quick', repo=tmp, write=False, quiet=True)
+            code, ctx, viol = engine.run_property(p, 'quick', program=prog, write=False, quiet=True)
             if viol:
                 fired[p] = sorted({f'{o.rule} @ {o.func}: {o.construct[:90]}' for o in viol})
             if ctx is not None and ctx.errors:
